@@ -55,8 +55,11 @@ class ProgramRun(object):
         if purge:
             # a stale app (installed in the database, gone from the code)
             with_old = S.clone(start)
-            with_old['apps'].append(A('vold', [M('Old', [
-                F('x', 'Char', max_length=20, db_index=True)])]))
+            # three tables: two models and a many-to-many table
+            with_old['apps'].append(A('vold', [
+                M('Old', [F('x', 'Char', max_length=20, db_index=True)]),
+                M('Older', [F('y', 'Int', null=True),
+                            F('olds', 'M2M', to='vold.Old')])]))
             self.base_image = D.baseline(with_old, rows=rows, db=db)
         else:
             self.base_image = D.baseline(start, rows=rows, db=db)
@@ -139,8 +142,17 @@ def judge_program(pr, stats, add7, add17):
             continue
         post = EB.canonical_state(alias=pr.db)
         if post != pre:
+            what = diff_kind(pre, post)
+            if pr.purge:
+                # is the purge itself half done?  (the stale app owns three
+                # tables; a failed purge must leave all of them)
+                left = [t for t in O.list_tables(pr.db)
+                        if t.startswith('vold_')]
+                if len(left) < 3:
+                    what += ':stale-app-tables-partly-dropped(%d-left)' \
+                        % len(left)
             add7('C07|state-changed-after-failed-run|%s|%s' % (
-                diff_kind(pre, post), where), pr, k,
+                what, where), pr, k,
                 {'statement': sk[0], 'program': desc})
         exc = res.exc
         if res.exc_type != 'EvolutionExecutionError':
